@@ -3,13 +3,13 @@ import itertools, random, signal, socket, subprocess, tempfile, time
 from engine import *
 
 GEN = 'C17'
-MODEL_FN = 'Model/RecvStop.v:start_call / stop_call (error discipline), sstep (Stop protocol)'
+MODEL_FN = 'Model/Shutdown.v:step (main.go shutdown sequence; tie: the end-to-end runs) ; Model/RecvStop.v:start_call / stop_call (error discipline), sstep (Stop protocol)'
 RULE = ('call sequences: EVERY sequence over {Start, Stop} of length 1..6 (126 sequences) x receiver configurations '
         '(sockets, workers, queue {0,8,1000}, blocking) with and without traffic running during the calls: every call returns '
         'within 3 s with exactly the error/no-error the model predicts, after every successful Start under traffic the decoder is called again within 2 s (also after restarts), goroutine count returns to the baseline, the port can be '
         'bound again; queued-before-Stop: 100..600 datagrams read and queued behind decoders that are released only after Stop '
         'was called: when Stop returns every datagram read has been decoded; end to end: the goflow2 binary built from /repo '
-        'listening on netflow://, N NetFlow v5 datagrams, SIGTERM -> exit status 0 and one JSON line per flow record in the file; and with a BACKLOG: two listeners (the default shape), output to a FIFO that is read only after SIGTERM, so that the workers are blocked in the output and the queue is full of accepted datagrams when the signal arrives -> every record comes out, exit status 0. '
+        'listening on netflow://, N NetFlow v5 datagrams, SIGTERM -> exit status 0 and one JSON line per flow record in the file; and with a BACKLOG (the scenario of Model/Shutdown.v, c18_shutdown_loses_nothing: written = taken in, nothing handed to a closed output): two listeners (the default shape), traffic to both, output to a FIFO that is read only after SIGTERM, so that the workers are blocked in the output and the queue is full of accepted datagrams when the signal arrives -> every record comes out, exit status 0. '
         'non-trivial = a sequence containing at least one successful Start and Stop; distinct by parameters')
 TRUSTED = ['Coq 8.16.1 kernel (coqc)', 'Go harness harness/udpseq.go, bin/engine.py', 'modelled, not verified: utils/udp.go Start/Stop/init; cmd/goflow2/main.go shutdown order is exercised, not modelled']
 ASSUMPTIONS = ['liveness is proved as progress + strictly decreasing measure on the model; real time and the OS are observed (3 s watchdog per call)',
@@ -131,7 +131,7 @@ def end_to_end_backlog(chk, n):
         s.bind(('127.0.0.1', 0))
         ports.append(s.getsockname()[1])
         s.close()
-    pr = subprocess.Popen([exe, '-listen', 'netflow://127.0.0.1:%d,sflow://127.0.0.1:%d' % tuple(ports), '-transport', 'file',
+    pr = subprocess.Popen([exe, '-listen', 'netflow://127.0.0.1:%d,netflow://127.0.0.1:%d' % tuple(ports), '-transport', 'file',
                            '-transport.file', fifo, '-format', 'json', '-addr', '', '-loglevel', 'error'],
                           stdout=subprocess.PIPE, stderr=subprocess.PIPE)
 
@@ -154,17 +154,18 @@ def end_to_end_backlog(chk, n):
     for i in range(n):
         k = 1 + i % 5
         hdr = (5).to_bytes(2, 'big') + k.to_bytes(2, 'big') + bytes(20)
-        tx.sendto(hdr + b''.join(bytes([i % 256]) * 48 for _ in range(k)), ('127.0.0.1', ports[0]))
+        # two datagrams in three to the FIRST listener (the one main.go stops first), one in three to the second
+        tx.sendto(hdr + b''.join(bytes([i % 256]) * 48 for _ in range(k)), ('127.0.0.1', ports[0 if i % 3 else 1]))
         recs += k
         if i % 20 == 19:
             time.sleep(0.005)
             t0 = time.time()
-            while (rxq(ports[0]) or 0) > 60000 and time.time() - t0 < 20:   # never near the socket buffer's limit
+            while max(rxq(ports[0]) or 0, rxq(ports[1]) or 0) > 60000 and time.time() - t0 < 20:   # never near the socket buffer's limit
                 time.sleep(0.01)
-    # until the collector has read everything from its socket (rx queue empty, twice 0.2 s apart)
+    # until the collector has read everything from its sockets (rx queues empty, twice 0.2 s apart)
     t0, calm = time.time(), 0
     while time.time() - t0 < 60 and calm < 2:
-        calm = calm + 1 if rxq(ports[0]) == 0 else 0
+        calm = calm + 1 if rxq(ports[0]) == 0 and rxq(ports[1]) == 0 else 0
         time.sleep(0.2)
     taken_all = calm >= 2
     pr.send_signal(signal.SIGTERM)
@@ -281,7 +282,7 @@ def run(chk):
         # judged only when the collector had read every datagram from its socket before the signal (otherwise the
         # datagrams still in the kernel's buffer were never accepted and may be lost)
         if taken_all and (rc != 0 or nlines != recs):
-            chk.record('scopeA', dict(concrete=True, input='goflow2 binary, listeners netflow + sflow, output FIFO not read until after SIGTERM: %d v5 records to the first listener, all read from the socket, then SIGTERM' % recs,
+            chk.record('scopeA', dict(concrete=True, input='goflow2 binary, two listeners, output FIFO not read until after SIGTERM: %d v5 records to both listeners, all read from the sockets, then SIGTERM' % recs,
                        impl='exit=%s lines=%d' % (rc, nlines), expected='exit=0 lines=%d' % recs,
                        what='SIGTERM with a backlog: the collector did not finish the datagrams it had taken in before closing the output'), {})
     return chk.finish(me)
